@@ -3,14 +3,17 @@
 set -e
 cd "$(dirname "$0")/.."
 export GOFLAGS=-mod=mod GOPROXY=off GOSUMDB=off GOTOOLCHAIN=local
+REPO="${VERIF_REPO:-/repo}"
 mkdir -p harness/bin coq/Cases coq/Gen evidence replays
-cp /repo/go.sum harness/go.sum
+cp "$REPO/go.sum" harness/go.sum
+sed -i "s#^replace github.com/simimpact/srsim => .*#replace github.com/simimpact/srsim => $REPO#" harness/go.mod
 (cd harness && for d in cmd/*/; do b=$(basename "$d"); go build -tags verif -o "bin/$b" "./cmd/$b"; done)
 if [ -x harness/bin/go2coq ]; then
   for g in $(python3 -c "import sys; sys.path.insert(0,'tools'); from props import PROPS; print(' '.join(sorted({g for p in PROPS.values() for g in p.get('gen',[])})))"); do
-    harness/bin/go2coq "$g" -repo /repo > "coq/Gen/$g.v.tmp" && mv "coq/Gen/$g.v.tmp" "coq/Gen/$g.v"
+    harness/bin/go2coq "$g" -repo "$REPO" > "coq/Gen/$g.v.tmp" && mv "coq/Gen/$g.v.tmp" "coq/Gen/$g.v"
   done
 fi
+python3 tools/gen_coqproject.py
 cd coq
 coq_makefile -f _CoqProject -o Makefile >/dev/null
 timeout 3000 make -j16 >/dev/null
